@@ -217,6 +217,31 @@ CLAIMED['C11'] = dict(
     technique="Lean 4 theorems on the mtime skip and the TIMESTAMP arithmetic + source bridge of cli.py + two-replica (incremental vs full) differential histories under five time zones + model correspondence",
     ref='§7 C11')
 
+CLAIMED['C06'] = dict(
+    text=("Two models. (1) A call-level model of get_file_metadata and its consumers verify_path / update_entry_for_path in which "
+          "the outcome of every file-system call (os.open, os.fstat, os.stat, open(fd), read) is a parameter - a value or an errno - and "
+          "the functions return the result together with the trace of calls issued, including the close of the descriptor. Theorems, for "
+          "every assignment of outcomes: 'absent' is concluded iff os.open failed with ENOENT (C06_absent_iff_enoent); a stray path "
+          "verifies iff os.open failed with ENOENT (C06_stray_ok_iff_enoent); whatever issued call failed with an errno - other than "
+          "os.open with ENOENT/ENXIO/EOPNOTSUPP - that very error is the result, so never success and never a mismatch "
+          "(C06_verify_raises_the_fault, C06_update_raises_the_fault); the descriptor is closed exactly once on every path "
+          "(C06_verify_closes_descriptor, C06_update_closes_descriptor). (2) The tree-level model gained unreadable objects "
+          "(Node.unreadable errno asDir): theorems that an unreadable, not ignored, not hidden file makes the visit of its directory "
+          "raise (C06_visitDir_unreadable_file), an unreadable directory the walk reaches raises (C06_walk_unreadable_dir, "
+          "C06_walkDir_unreadable_subdir), an error below propagates to the whole walk and to assert_directory_verifies "
+          "(C06_walkKids_propagates, C06_walkDir_propagates, C06_assert_raises_if_walk_raises), an error in the scan fails the update "
+          "command before the save step, the only source of writes (C06_scan_error_fails_update, C06_writes_only_from_save); the "
+          "two models agree (C06_calls_refine_obj). Tie: Bridge/Faults pins the three function bodies statement by statement; the "
+          "harness injects OSErrors into the real code: per call kind x errno x object kind against model result and call trace; one "
+          "unreadable object in generated trees against the tree model; every single placement of an error at the k-th call of a whole "
+          "verification (library, CLI) or update scan against the property's oracle; descriptor accounting. PARTIAL: the chain from "
+          "'some reached object is unreadable' to 'the whole walk raises' is proved per level, composed by hypotheses on the state at "
+          "each level; single placements at calls outside get_file_metadata (scandir iteration, Manifest reads) are covered by the "
+          "oracle, not by a theorem."),
+    note=TB + "Faults are injected at the Python-visible calls; errors inside C helpers (DirEntry.is_dir, decompressors) are not modelled.",
+    technique="Lean 4 theorems over all call outcomes (call-level model) and over trees with unreadable objects + source bridge + fault-injection differential against the real code",
+    ref='§7 C06')
+
 PENDING = ['C01', 'C02', 'C03', 'C04', 'C05', 'C06', 'C07', 'C08', 'C10', 'C11', 'C12', 'C13', 'C14', 'C15', 'C16',
            'C17', 'C18', 'C19', 'C20']
 
